@@ -402,3 +402,86 @@ pub fn fitmap(cfg: &Cfg, out: &mut Out<f64>) {
         }
     }
 }
+
+
+/// two (nearly) collinear decays plus a constant; used for rank-deficient statistics through the public API
+pub struct Collinear {
+    pub x: DVector<f64>,
+    pub alpha: DVector<f64>,
+    pub gap: f64,
+}
+impl SeparableNonlinearModel for Collinear {
+    type ScalarType = f64;
+    type Error = E;
+    fn parameter_count(&self) -> usize {
+        1
+    }
+    fn base_function_count(&self) -> usize {
+        3
+    }
+    fn output_len(&self) -> usize {
+        self.x.len()
+    }
+    fn set_params(&mut self, p: OVector<f64, Dyn>) -> Result<(), E> {
+        self.alpha = p;
+        Ok(())
+    }
+    fn params(&self) -> OVector<f64, Dyn> {
+        self.alpha.clone()
+    }
+    fn eval(&self) -> Result<OMatrix<f64, Dyn, Dyn>, E> {
+        let a = self.alpha[0];
+        Ok(DMatrix::from_fn(self.x.len(), 3, |i, j| match j {
+            0 => (-self.x[i] * a).exp(),
+            1 => (-self.x[i] * (a + self.gap)).exp(),
+            _ => 1.0,
+        }))
+    }
+    fn eval_partial_deriv(&self, _k: usize) -> Result<OMatrix<f64, Dyn, Dyn>, E> {
+        let a = self.alpha[0];
+        Ok(DMatrix::from_fn(self.x.len(), 3, |i, j| match j {
+            0 => -self.x[i] * (-self.x[i] * a).exp(),
+            1 => -self.x[i] * (-self.x[i] * (a + self.gap)).exp(),
+            _ => 0.0,
+        }))
+    }
+}
+
+/// C12 through the public API only (no private accessors): defining identities of the statistics and the
+/// N > M + P rule, on full-rank and on rank-deficient (truncated) problems, weighted and unweighted
+pub fn statsfit(_cfg: &Cfg, out: &mut Out<f64>) {
+    for (n, gap, eps, weighted) in [(12usize, 0.9, None, false), (12, 0.0, Some(1e-3), false), (9, 0.0, Some(1e-3), true), (5, 0.0, Some(1e-3), false), (4, 0.0, Some(1e-3), false), (4, 0.9, None, true), (6, 1e-9, None, false)] {
+        let x = DVector::from_fn(n, |i, _| 0.2 * i as f64);
+        let y = DVector::from_fn(n, |i, _| 1.3 * (-x[i] * 0.8).exp() + 0.4 + 0.02 * (((i * 5) % 7) as f64 - 3.0));
+        let w = DVector::from_fn(n, |i, _| 0.5 + 0.25 * (i % 3) as f64);
+        let model = Collinear { x, alpha: DVector::from_vec(vec![0.7]), gap };
+        let mut b = LevMarProblemBuilder::new(model).observations(y);
+        if weighted {
+            b = b.weights(w);
+        }
+        if let Some(e) = eps {
+            b = b.epsilon(e);
+        }
+        let Ok(problem) = b.build() else { continue };
+        let (m, p) = (3usize, 1usize);
+        let tag = format!("n={n},gap={gap},eps={eps:?},weighted={weighted}");
+        match LevMarSolver::default().fit_with_statistics(problem) {
+            Ok((fr, st)) => {
+                out.fact("C12.native.ok_implies_determined", n > m + p, format!("{tag}: Ok although N <= M+P"));
+                if n > m + p {
+                    let r = st.weighted_residuals();
+                    let final_r = fr.problem.residuals();
+                    out.fact("C12.native.weighted_residuals_are_final_residuals", final_r.map(|fr_| (fr_ - &r).norm() <= 1e-9 * (1.0 + r.norm())).unwrap_or(false), tag.clone());
+                    let want = r.norm_squared() / (n - m - p) as f64;
+                    out.fact("C12.native.reduced_chi2", (st.reduced_chi2() - want).abs() <= 1e-9 * (1e-300 + want.abs()), format!("{tag}: reduced chi2 {} but ||r||^2/(N-M-P) = {want}", st.reduced_chi2()));
+                    let rse = st.regression_standard_error();
+                    out.fact("C12.native.regression_standard_error", (rse * rse - st.reduced_chi2()).abs() <= 1e-9 * (1e-300 + want.abs()), format!("{tag}: rse {rse}"));
+                }
+            }
+            Err(fr) => {
+                // an Err is admissible for a failed fit, N <= M+P, or a singular normal matrix (rank-deficient cases)
+                let _ = fr;
+            }
+        }
+    }
+}
